@@ -55,6 +55,17 @@ Theorem C13_src_message_origin_handle : src_jsonrpc_message_origin_recognised = 
 Proof. exact src_jsonrpc_message_origin_handle. Qed.
 Print Assumptions C13_src_message_origin_handle.
 
+(* equal time stamps (ts is the relaying node's clock, not an event id: distinct events of one clock tick): a message whose
+   ts is not older than - in particular EQUAL to - the sender's remote log position is NOT dropped by the code, and the model
+   applies it exactly when it applies the same message without ts *)
+Theorem C13_equal_ts_processed : src_jsonrpc_message_origin_recognised = true ->
+  (forall l s ts rlp0, (rlp0 <= ts)%Z ->
+     src_jsonrpc_message_origin (mz_is_some (mz_ep s)) true ts rlp0 (xz_ep_zone s) l (mz_cclaim s)
+     = (false, if mz_is_some (mz_ep s) then ts else rlp0, mz_from_zone l s)) /\ (forall t c s m row eff,
+     mz_dropped (mz_handle_core t c s m MzTsNew row eff) = false /\ @eq bool (mz_applied (mz_handle_core t c s m MzTsNew row eff)) (mz_applied (mz_handle_core t c s m MzTsNone row eff))).
+Proof. intro H. exact (conj (src_jsonrpc_equal_ts_processed H) mz_not_older_processed). Qed.
+Print Assumptions C13_equal_ts_processed.
+
 (* RelayMessageOne returns early exactly when mz_relay_one has no candidate zone; otherwise the zones it goes through are mz_relay_one's *)
 Theorem C13_src_relay_target_zones : src_relay_target_zones_recognised = true ->
   forall t l a,
